@@ -827,8 +827,10 @@ def _sbml_to_model(
         cobra_reaction.annotation = _parse_annotations(reaction)
         cobra_reaction.notes = _parse_notes_dict(reaction)
 
-        # set bounds
+        # set bounds (both at once: a lower bound above the default upper bound
+        # is valid as long as the upper bound follows)
         p_ub, p_lb = None, None
+        lower_bound, upper_bound = cobra_reaction.bounds
         r_fbc: "libsbml.FbcReactionPlugin" = reaction.getPlugin("fbc")
         if r_fbc:
             # bounds in fbc
@@ -836,7 +838,7 @@ def _sbml_to_model(
             if lb_id:
                 p_lb: "libsbml.Parameter" = model.getParameter(lb_id)
                 if p_lb and p_lb.getConstant() and (p_lb.getValue() is not None):
-                    cobra_reaction.lower_bound = p_lb.getValue()
+                    lower_bound = p_lb.getValue()
                 else:
                     raise CobraSBMLError(
                         f"No constant bound '{p_lb}' for reaction: {reaction}"
@@ -846,7 +848,7 @@ def _sbml_to_model(
             if ub_id:
                 p_ub: "libsbml.Parameter" = model.getParameter(ub_id)
                 if p_ub and p_ub.getConstant() and (p_ub.getValue() is not None):
-                    cobra_reaction.upper_bound = p_ub.getValue()
+                    upper_bound = p_ub.getValue()
                 else:
                     raise CobraSBMLError(
                         f"No constant bound '{p_ub}' for reaction: {reaction}"
@@ -859,12 +861,12 @@ def _sbml_to_model(
                 "LOWER_BOUND"
             )  # noqa: E501 type: libsbml.LocalParameter
             if p_lb:
-                cobra_reaction.lower_bound = p_lb.getValue()
+                lower_bound = p_lb.getValue()
             p_ub = klaw.getParameter(
                 "UPPER_BOUND"
             )  # noqa: E501 type: libsbml.LocalParameter
             if p_ub:
-                cobra_reaction.upper_bound = p_ub.getValue()
+                upper_bound = p_ub.getValue()
 
             if p_ub is not None or p_lb is not None:
                 LOGGER.warning(
@@ -876,7 +878,6 @@ def _sbml_to_model(
         if p_lb is None:
             missing_bounds = True
             lower_bound = config.lower_bound
-            cobra_reaction.lower_bound = lower_bound
             LOGGER.warning(
                 f"Missing lower flux bound set to '{lower_bound}' for "
                 f"reaction: '{reaction}'"
@@ -885,11 +886,12 @@ def _sbml_to_model(
         if p_ub is None:
             missing_bounds = True
             upper_bound = config.upper_bound
-            cobra_reaction.upper_bound = upper_bound
             LOGGER.warning(
                 f"Missing upper flux bound set to '{upper_bound}' for "
                 f"reaction: '{reaction}'"
             )
+
+        cobra_reaction.bounds = lower_bound, upper_bound
 
         # add reaction
         reactions.append(cobra_reaction)
